@@ -77,14 +77,32 @@ def _case(rng, kind, sizes, nrounds=3):
 
 
 def generate(tier, rng):
-  reps = {'quick': 9, 'thorough': 60, 'search': 100}[tier]
-  # corners first: a round without examples in the middle of a run, per kind
+  reps = {'quick': 8, 'thorough': 60, 'search': 100}[tier]
+  again = []
+  # Every algorithm instance of the process is built from the SAME per_example_loss / grad function objects
+  # (fedsim.per_example_loss, fedsim.shared_grad).  Hidden module-level or closure state keyed on them would leak
+  # hyper-parameters between instances: build each family with a NON-degenerate value first, then the degenerate one,
+  # then another value, and re-run the first-built objects at the very end.
+  for kind, vals in (('fedprox', [0.5, 0.0, 0.25]), ('mimelite_gen', [2.0, 1.0, 0.5]), ('mime_gen', [0.5, 1.0, 2.0])):
+    for noise in (True, False):
+      for v in vals:
+        c = _case(rng, kind, [3, 5, 2])
+        c['noise'], c['copt'], c['sopt'], c['hp'] = noise, SGD(0.125), SGD(1.0), _hp(HPS[0], 3)
+        if kind == 'fedprox':
+          c['mu'] = v
+          c['kind'] = 'fedprox' if v else 'fedprox0'
+        else:
+          c['slr'] = v
+        yield c
+        again.append(c)
+  # corners: a round without examples in the middle of a run, a round without clients, per kind
   for kind in KINDS:
     c = _case(rng, kind, [3, 0, 0, 4])
     c['rounds'] = [[['0', 1], ['1', 2]], [['1', 3], ['2', 4]], [['2', 5], ['3', 6], ['0', 7]]]
     if kind not in ('fedprox0', 'fedprox'):
       c['reg'] = 0.25                   # regularised objective
     yield c
+    again.append(c)
     c = _case(rng, kind, [2, 5])        # a round without clients in the middle of a run
     c['rounds'] = [[['0', 1], ['1', 2]], [], [['1', 5], ['0', 7]]]
     if kind in ('mime_gen', 'mimelite_gen'):
@@ -94,6 +112,12 @@ def generate(tier, rng):
     for kind in KINDS:
       sizes = rng.choice(SIZES) if rng.random() < 0.6 else [rng.randint(0, 9) for _ in range(rng.randint(1, 6))]
       yield _case(rng, kind, sizes)
+  # the first-built algorithm objects again, after all the others exist (run on fresh populations)
+  for c in again[:12]:
+    c2 = _case(rng, c['kind'], [4, 1, 3])
+    for k in ('copt', 'sopt', 'hp', 'noise', 'mu', 'slr', 'coef', 'reg', 'kind'):
+      c2[k] = c[k]
+    yield c2
 
 
 # ----------------------------------------------------------------------------
@@ -111,8 +135,17 @@ def _cached(key, build):
   return _ALGS[k]
 
 
+_AUG = {}
+
+
 def per_example_loss_aug(noise, mu):
-  """loss + 0.5*mu*|w - ws|^2 with ws (the round's server params) carried by every example."""
+  """loss + 0.5*mu*|w - ws|^2 with ws (the round's server params) carried by every example (one object per (noise, mu))."""
+  if (noise, mu) not in _AUG:
+    _AUG[(noise, mu)] = _make_aug(noise, mu)
+  return _AUG[(noise, mu)]
+
+
+def _make_aug(noise, mu):
   import jax.numpy as jnp
   base = fs.per_example_loss(noise)
 
@@ -143,7 +176,7 @@ def _algo_a(case):
   if kind in ('mime1', 'mime_gen'):
     return mime.mime(pel, copt, hp, _padded_hp(), case['slr'], regularizer=reg)
   if kind in ('apfl', 'apfl_noise'):
-    return apfl.adaptive_personalized_federated_learning(fedjax.grad(pel, reg), copt, sopt, hp, case['coef'])
+    return apfl.adaptive_personalized_federated_learning(fs.shared_grad(case['noise'], case.get('reg', 0.0)), copt, sopt, hp, case['coef'])
   raise ValueError(kind)
 
 
@@ -155,13 +188,13 @@ def _algo_b(case):
   hp = fs.hparams(case['hp'])
   reg = fs.make_regularizer(case.get('reg', 0.0))
   if kind in ('fedprox0', 'hypcluster', 'apfl'):
-    return fed_avg.federated_averaging(fedjax.grad(fs.per_example_loss(case['noise']), reg), fs.make_optimizer(case['copt']),
+    return fed_avg.federated_averaging(fs.shared_grad(case['noise'], case.get('reg', 0.0)), fs.make_optimizer(case['copt']),
                                        fs.make_optimizer(case['sopt']), hp)
   if kind == 'fedprox':
     return fed_avg.federated_averaging(fedjax.grad(per_example_loss_aug(case['noise'], case['mu'])),
                                        fs.make_optimizer(case['copt']), fs.make_optimizer(case['sopt']), hp)
   if kind == 'mimelite1':
-    return fed_avg.federated_averaging(fedjax.grad(fs.per_example_loss(case['noise']), reg), fs.make_optimizer(case['copt']),
+    return fed_avg.federated_averaging(fs.shared_grad(case['noise'], case.get('reg', 0.0)), fs.make_optimizer(case['copt']),
                                        fs.make_optimizer(SGD(1.0)), hp)
   return None
 
